@@ -354,7 +354,8 @@ def gen_ex(rng, d, depth, coords=None):
     return Ex(op, gen_ex(rng, d, depth - 1, coords), gen_ex(rng, d, depth - 1, coords))
 
 
-FLAVOURS = ['vec', 'vectorize', 'vectorize_otypes', 'broadcast', 'inplace', 'dual', 'const', 'plain1d', 'ufunc']
+FLAVOURS = ['vec', 'vectorize', 'vectorize_otypes', 'broadcast', 'inplace', 'dual', 'const', 'plain1d', 'ufunc',
+            'loop1d']
 
 
 def make_callable_src(flavour, ex_re, ex_im, cplx, d):
@@ -380,6 +381,13 @@ def make_callable_src(flavour, ex_re, ex_im, cplx, d):
                 '    out[:] = r\n' % both(True))
     if flavour == 'ufunc':
         return 'import numpy as np\nf = np.negative\n'
+    if flavour == 'loop1d':
+        # a 1-d function written as a Python loop over the points: raises TypeError on the (1, n)
+        # array the wrapper passes first, and is retried with x[0] (dual_use_func, 1-d only)
+        s = ex_re.src(False, 't', True)
+        if cplx:
+            s = '(%s + 1j * %s)' % (s, ex_im.src(False, 't', True))
+        return 'import numpy as np\nf = lambda x: np.array([(lambda t: %s)(float(t)) for t in x])\n' % s
     raise ValueError(flavour)
 
 
@@ -404,7 +412,7 @@ def make_space(rng, d, dtype, uniform=None):
     return sp, src
 
 
-MODES = ['element', 'mesh-out', 'array', 'array-out', 'points']
+MODES = ['element', 'mesh-out', 'array', 'array-out', 'points', 'element-F', 'element-C']
 SAMPLE_SRC = '''
 def sample(space, f, mode):
     """The values of callable f on the grid of `space`, obtained through one entry point of the
@@ -415,6 +423,8 @@ def sample(space, f, mode):
     from odl.discr.discr_utils import sampling_function, point_collocation
     if mode == 'element':
         return space.element(f).asarray()
+    if mode in ('element-C', 'element-F'):
+        return np.ascontiguousarray(space.element(f, order=mode[-1]).asarray())
     func = sampling_function(f, space.domain, out_dtype=space.dtype)
     if mode == 'mesh-out':
         out = np.full(space.shape, np.nan, dtype=space.dtype)
@@ -443,7 +453,7 @@ def sampling_cases(rng, tier):
         dtype = rng.choice(['float64', 'float64', 'float32', 'complex128'])
         cplx = dtype == 'complex128'
         flavour = FLAVOURS[it % len(FLAVOURS)]
-        if flavour in ('plain1d', 'ufunc'):
+        if flavour in ('plain1d', 'ufunc', 'loop1d'):
             d = 1
         if flavour == 'ufunc':
             cplx, dtype = False, rng.choice(['float64', 'float32'])
@@ -822,7 +832,7 @@ def probes(rng, tier):
     # ---- 4. sampling: every callable flavour gives the callable's values at the grid points
     for it in range(len(FLAVOURS) * 3 * reps):
         flavour = FLAVOURS[it % len(FLAVOURS)]
-        d = 1 if flavour in ('plain1d', 'ufunc') else rng.choice([1, 2, 3])
+        d = 1 if flavour in ('plain1d', 'ufunc', 'loop1d') else rng.choice([1, 2, 3])
         dtype = rng.choice(['float64', 'float32', 'complex128'])
         if flavour == 'ufunc' and dtype == 'complex128':
             dtype = 'float64'
